@@ -147,7 +147,7 @@ fn prior_state(r: &mut Rng, p: &mut Parser, log: &mut Vec<(Vec<u8>, bool)>) -> &
 pub fn run(ctx: &Ctx, rep: &mut Report) {
     let mut r = ctx.rng("c02");
     // (a) bodies from the grammar generator x all 256 transmitted values x hex styles
-    let bodies = ctx.budget(250, 6000);
+    let bodies = ctx.budget(2500, 30_000);
     for bi in 0..bodies {
         let mut b: Build = random_build(&mut r, 120);
         b.tail.clear();
@@ -253,7 +253,7 @@ pub fn run(ctx: &Ctx, rep: &mut Report) {
     }
     // (c) a perfect *next* fragment with a wrong checksum must not be accepted and the
     // group must still complete afterwards (the gate sits before any state change)
-    for _ in 0..ctx.budget(2000, 60_000) {
+    for _ in 0..ctx.budget(20_000, 300_000) {
         let n = r.range(2, 5) as u8;
         let id = if r.bool() { Some(r.below(10) as u8) } else { None };
         let mut p = Parser::new();
